@@ -245,10 +245,12 @@ class LocalFileStore(Store):
             if os.path.exists(loc) and os.path.realpath(loc) == loc_blob:
                 _logger.debug(f"Link {loc} up to date")
             else:
-                if os.path.exists(loc):
-                    os.remove(loc)
                 _logger.info(f"Link {loc} -> {loc_blob}")
-                os.symlink(loc_blob, loc)
+                # Create the link under a temporary name and rename it over the previous one:
+                # the path always resolves to its old or to its new blob, also if interrupted.
+                tmp_loc = loc + _tmp_suffix()
+                os.symlink(loc_blob, tmp_loc)
+                os.replace(tmp_loc, loc)
 
     def fetch_paths(self, paths: List[DDSPath]) -> "OrderedDict[DDSPath, PyHash]":
         res = OrderedDict()
